@@ -18,7 +18,7 @@ def row(m):
 total = len(metas); caught = sum(1 for m in metas if m.get("caught_by"))
 out = []
 out.append("## Appendix E — seeded defects (sensitivity)\n")
-out.append(f"""Five rounds of 18 seeded defects each (rounds 1–4: two per claimed property; round 5: two per group of source files, the author choosing which property to break),
+out.append(f"""Six rounds of 18 seeded defects each (rounds 1–4 and 6: two per claimed property; round 5: two per group of source files, the author choosing which property to break),
 every one written by a fresh sub-agent that was given only the text of one
 property and its own scratch git worktree of `/repo` under `/tmp` — nothing
 from `/verif`. Rounds 2 to 4 additionally received one-line summaries of the
@@ -26,7 +26,13 @@ defects already produced for that property (so as not to repeat them); round 3
 was asked for defects in shared / lower-level code, defects that depend on a
 rare *value*, and defects that depend on the order or repetition of API calls;
 round 4 was told that the effort under evaluation is a randomised simulation
-and asked for defects such sampling is unlikely to stumble on.
+and asked for defects such sampling is unlikely to stumble on; round 6 was
+given the summaries of all five earlier rounds and asked for defects that
+differ from them in *kind* (a rarely used entry point or generic instantiation,
+an interaction between two API families, the second use of an object or its use
+after a failed call, unusual length or value classes, handling that is right
+for one error kind and wrong for another, clean-up skipped when two things fail
+in one call).
 For each defect I re-ran in the scratch worktree: the demonstration on clean
 HEAD (passes), the existing suite with the patch (`cargo test --offline --lib
 --tests`, plus `cargo +nightly test --features nightly --lib` for
@@ -37,7 +43,7 @@ registered quick check(s), and reverted — `tools/run_seeded.py` (results in ea
 quick tier. The last column says what the machinery needed in order to catch
 the defect when it did not as it stood at the time the defect was written.
 """)
-for r in (1, 2, 3, 4, 5):
+for r in (1, 2, 3, 4, 5, 6):
     ms = [m for m in metas if rnd(m) == r]
     if not ms: continue
     out.append(f"\n### Round {r}\n")
